@@ -83,28 +83,9 @@ Fixpoint number_list (start : nat) (ls : list lay) : list stmt :=
 (* the lines a..b (1-based, inclusive) *)
 Definition slice (ls : lines) (a b : nat) : lines := firstn (b + 1 - a) (skipn (a - 1) ls).
 
-(* ---------- Object.source: the sliced lines without their common margin (textwrap.dedent, for space indentation) ---------- *)
-Fixpoint indent_of (s : string) : nat :=
-  match s with String c r => if Ascii.eqb c " "%char then S (indent_of r) else 0 | EmptyString => 0 end.
-Fixpoint is_blank (s : string) : bool :=
-  match s with EmptyString => true | String c r => Ascii.eqb c " "%char && is_blank r end.
+(* drop the first n characters of a line (used by Model/C01_dedent.v) *)
 Fixpoint drop (n : nat) (s : string) : string :=
   match n, s with O, _ => s | S k, String _ r => drop k r | S _, EmptyString => EmptyString end.
-Fixpoint spaces (n : nat) : string := match n with O => EmptyString | S k => String " "%char (spaces k) end.
-(* the margin: the smallest indentation among the lines that are not blank (None when all are blank) *)
-Fixpoint margin_opt (ls : lines) : option nat :=
-  match ls with
-  | [] => None
-  | l :: r =>
-      if is_blank l then margin_opt r
-      else match margin_opt r with Some m => Some (Nat.min (indent_of l) m) | None => Some (indent_of l) end
-  end.
-Definition margin (ls : lines) : nat := match margin_opt ls with Some m => m | None => 0 end.
-(* every line loses the margin; a line of blanks becomes empty *)
-Definition dedent (ls : lines) : lines := map (fun l => if is_blank l then EmptyString else drop (margin ls) l) ls.
-(* Object.lines / Object.source of an object whose reported span is a..b *)
-Definition object_lines (whole : lines) (a b : nat) : lines := slice whole a b.
-Definition object_source (whole : lines) (a b : nat) : lines := dedent (slice whole a b).
 
 (* ---------- where spans are reported, and what they are meant to cut out ---------- *)
 Inductive otag :=
